@@ -209,12 +209,15 @@ class VariableTransformer:
             np.logical_and((~np.isfinite(self.orig_ub)), self.apply_log_t)
         ] = 1e6
 
-        numeps = 1e-6  # accepted numerical error
+        numeps = 1e-6  # accepted numerical error (relative for large magnitudes)
         tests = np.zeros(4)
-        tests[0] = np.all(np.abs(ginv(g(lbtest)) - lbtest) < numeps)
-        tests[1] = np.all(np.abs(ginv(g(ubtest)) - ubtest) < numeps)
-        tests[2] = np.all(np.abs(ginv(g(self.orig_plb)) - self.orig_plb) < numeps)
-        tests[3] = np.all(np.abs(ginv(g(self.orig_pub)) - self.orig_pub) < numeps)
+        for i_test, xtest in enumerate(
+            [lbtest, ubtest, self.orig_plb, self.orig_pub]
+        ):
+            tests[i_test] = np.all(
+                np.abs(ginv(g(xtest)) - xtest)
+                < numeps * np.maximum(1.0, np.abs(xtest))
+            )
         if not np.all(tests):
             raise ValueError("Cannot invert the transform to obtain the identity at the provided boundaries.")
 
